@@ -20,7 +20,7 @@ for p in plist:
         "engine": "symx+coq",
         "level_claimed": {"category": "proof",
                           "text": cfg.get("level_text", "Coq theorems (all inputs, over the reals) about Gallina terms regenerated on every run from the current source by symbolic execution of the real C++ (symx)."),
-                          "design_ref": "DESIGN.md section 4, " + pid},
+                          "design_ref": "DESIGN.md section 0 (as built: 0.2, 0.3, 0.8) and section 4, " + pid},
         "level_note": cfg.get("level_note", "Trusted: Coq kernel; Reals axioms (sig_forall_dec, sig_not_dec, functional_extensionality_dep, classic); the symx translator (validated each run against the plain-double build and by PrimFloat re-evaluation); real-number semantics (rounding not modelled)."),
         "technique": cfg.get("technique", "machine-checked proof in Coq (ring/field/nra over Reals) of terms generated from the source"),
     })
